@@ -1,66 +1,13 @@
 (* LoadTotal.v — the file work-list of the loader always finishes within its fuel: every step takes a
-   new, distinct file name that is a file of the tree, so there are at most as many steps as files.
-   In particular a file that includes itself (or two files including each other) cannot make the
-   loader run forever. *)
+   new, distinct key (file name, import root); the file is a file of the tree and the root is absent or
+   the directory of a file of the tree, so there are at most |files| * (|files| + 1) steps.
+   In particular a file that includes itself, two files including each other, or imports that import
+   each other cannot make the loader run forever. The proofs are in WorkList.v (load_files_never_fuel,
+   loader_worklist_terminates, load_files_bound); this file re-exports them under the old name. *)
 From Coq Require Import Ascii String.
 From Coq Require Import List Arith Bool NArith Lia.
 Import ListNotations.
 Require Import Laze.model.Base Laze.model.Path Laze.model.Load Laze.model.Cache.
+Require Export Laze.proofs.WorkList.
 Require Import Laze.proofs.BaseFacts Laze.proofs.CacheInstance Laze.proofs.LoadFrame.
 Open Scope list_scope.
-
-Lemma firstn_S_nth {A} (l : list A) n x : nth_error l n = Some x -> firstn (S n) l = firstn n l ++ [x].
-Proof.
-  revert n. induction l as [|y t IH]; intros n Hn; [destruct n; discriminate|].
-  destruct n as [|n]; cbn in *; [injection Hn as ->; reflexivity|]. f_equal. apply IH, Hn.
-Qed.
-
-Lemma In_firstn' {A} (x : A) : forall n l, In x (firstn n l) -> In x l.
-Proof.
-  induction n as [|n IH]; intros l Hi; [destruct Hi|]. destruct l as [|y t]; [destruct Hi|].
-  cbn in Hi. destruct Hi as [->|Hi]; [left; reflexivity|right; apply IH, Hi].
-Qed.
-Lemma NoDup_firstn' {A} n (l : list A) : NoDup l -> NoDup (firstn n l).
-Proof.
-  revert n. induction l as [|x t IH]; intros n ND; [destruct n; constructor|].
-  destruct n; cbn; [constructor|]. inversion ND as [|? ? Hx ND']; subst. constructor; [|apply IH, ND'].
-  intros Hi. apply Hx. eapply In_firstn'. exact Hi.
-Qed.
-
-Lemma load_files_never_fuel : forall fuel (t : ytree) (pending : list finc) pos docs,
-  NoDup (map fst pending) -> pos <= length pending ->
-  (forall inc : finc, In inc (firstn pos pending) -> alookup (fst inc) t <> None) ->
-  length t + 2 <= fuel + pos ->
-  load_files fuel t pending pos docs <> Fuel.
-Proof.
-  induction fuel as [|f IH]; intros t pending pos docs ND Hpos Hin Hf.
-  - (* no fuel left: impossible, the first [pos] names are distinct files of the tree *)
-    exfalso.
-    assert (Hlen : length (firstn pos pending) <= length t).
-    { assert (ND' : NoDup (map fst (firstn pos pending))) by (rewrite <- firstn_map; apply NoDup_firstn', ND).
-      assert (Hincl : incl (map fst (firstn pos pending)) (akeys t)).
-      { intros n Hn. apply in_map_iff in Hn. destruct Hn as (inc & <- & Hi). apply alookup_In_keys, Hin, Hi. }
-      pose proof (NoDup_incl_length ND' Hincl) as Hl. unfold akeys in Hl. rewrite !map_length in Hl. exact Hl. }
-    rewrite firstn_length_le in Hlen by exact Hpos. cbn in Hf. lia.
-  - rewrite load_files_S. destruct (nth_error pending pos) as [inc|] eqn:En; [|discriminate].
-    destruct (alookup (fst inc) t) as [ds|] eqn:Ea; [|discriminate].
-    assert (Hpl : pos < length pending) by (apply nth_error_Some; rewrite En; discriminate).
-    apply IH.
-    + apply (step_pending_ind (fun l => NoDup (map fst l))); [intros x l; apply finc_insert_nodup|exact ND].
-    + destruct (step_pending_ext inc (length docs) ds pending) as [e ->]. rewrite app_length. lia.
-    + destruct (step_pending_ext inc (length docs) ds pending) as [e ->].
-      rewrite firstn_app. replace (S pos - length pending) with 0 by lia. rewrite firstn_O, app_nil_r.
-      rewrite (firstn_S_nth _ _ _ En). intros x Hx. apply in_app_or in Hx. destruct Hx as [Hx|[<-|[]]]; [apply Hin, Hx|].
-      rewrite Ea. discriminate.
-    + lia.
-Qed.
-
-(* the loader's work-list never runs out of fuel, whatever the tree (self-including files included) *)
-Theorem loader_worklist_terminates (t : ytree) pf : load_files (S (S (length t * 8))) t [(pf, None)] 0 [] <> Fuel.
-Proof.
-  apply load_files_never_fuel.
-  - cbn. constructor; [intros []|constructor].
-  - cbn. lia.
-  - intros inc [].
-  - lia.
-Qed.
